@@ -260,6 +260,12 @@ def r7_order(cx):
                 cx.bad(it.node, "%s builds its list result from an ordered iteration" % q, construct="%s over %s" % (it.kind, short(it.iterable)))
             else:
                 cx.ok(it.node, "%s iterates an ordered expression" % q, construct="%s over %s" % (it.kind, short(it.iterable, 80)))
+    # nothing on the way from the persisted list to the broker (or back) re-orders it: no sort / sorted / reversed / set() of the element list
+    for q in ("marshal", "unmarshal", "Hydration._hydrate_one", "Hydration.hydrate", "Hydration.dehydrate"):
+        fn = sd.func(q, "C11.R7")
+        re_ = [x for x in ast.walk(fn) if isinstance(x, ast.Call) and (call_attr(x) in ("sort", "reverse") or call_name(x) in ("sorted", "reversed", "set", "frozenset", "random.shuffle", "shuffle"))
+               and not (call_name(x) == "sorted" and "glob" in U(x))]
+        cx.require(not re_, re_[0] if re_ else fn, "%s hands the elements on in the order it received them" % q, construct=short(re_[0], 90) if re_ else "no re-ordering call in %s" % q)
     m = sd.func("marshal", "C11.R7")
     def _is_map(x):
         if call_name(x) == "map" or call_attr(x) == "map":
@@ -372,6 +378,13 @@ def r8_no_recollect(cx):
     cx.require(ok, h[0] if h else ib, "a serialized archive seeds the broker through Hydration(root=ctx.root, ctx=ctx).hydrate(broker)", construct=short(h[0]) if h else "(none)")
 
 
+def r6b_attribution_memo(cx):
+    """A failure is persisted with the registry point only if the exception was attributed to it: the look-up of registry points must not answer from a
+    memo that later registrations (or a different search direction) invalidate - C03.R3 re-checked under this property."""
+    from . import c03
+    cx.borrow(c03.r3b_registry_points_not_memoised_partially, "C03.R3", "C11.R6", "a failed component is persisted with its errors")
+
+
 def run(cx):
     repo = cx.repo
     cx.extra["explanation"] = ("C11: pairing/exhaustiveness of (de)serializers over every instantiable provider kind, key and field agreement of each pair, same-rel rule, "
@@ -390,6 +403,7 @@ def run(cx):
     cx.guard(r2_r3_r4, sers, desers)
     cx.guard(r5_isolation)
     cx.guard(r6_errors_persisted)
+    cx.guard(r6b_attribution_memo)
     cx.guard(r7_order)
     cx.guard(r8_no_recollect)
     cx.guard(r9_line_separator)
